@@ -4,7 +4,29 @@ from . import core
 from .ringgen import random_sched
 
 HEADER = "From RM Require Import RingModel FullSync Chan."
-XHEADER = "From RM Require Import RingModel FullSync Chan Reserve ChanX."
+XHEADER = "From RM Require Import RingModel FullSync Chan Reserve ChanX ChanW ZeroCopy ZcUni ChanZ."
+ZRUNNERS = {"zc_atomic": "ZC.run_uni_zc_atomic", "zc_full_sync": "ZC.run_uni_zc_fullsync"}
+ZOPS = ("send", "sendw", "poll", "drive", "cancel_all", "len")
+def strip_handle_drops(flat):
+    """the record [2 t 17 i 0] marks the end of the drop of a payload handle in the harness; the model's release phase has no such record"""
+    out = []; i = 0
+    from .core import ARITY
+    while i < len(flat):
+        n = ARITY.get(flat[i], 1)
+        if flat[i] == 9: out += flat[i:]; break
+        if not (flat[i] == 2 and flat[i + 2] == 17): out += flat[i:i + n]
+        i += n
+    return out
+WRUNNERS = {"move_atomic": "W.run_uni_atomic", "move_full_sync": "W.run_uni_fullsync"}
+def coq_wop(op):
+    """the machine of Chan/ChanW.v (a task may pass a different waker to each poll): `drivem:i:mask` is a drive whose poll j uses waker bit j of mask"""
+    n, a = op
+    if n == "drivem": return "W.CoDrive %d" % a[0]
+    return "W." + coq_op(op)
+def waker_plan(p):
+    for n, a in p:
+        if n == "drivem": return "[" + "; ".join(str((a[1] >> j) & 1) for j in range(16)) + "]"
+    return "[]"
 XOPS = ("res", "sres", "cres", "senda")
 
 def coq_op(op):
@@ -29,7 +51,16 @@ def mk_case(chan, N, M, k, origin, progs, sched, meta=None, probe=False):
     line = "uni chan=%s N=%d M=%d k=%d origin=%d%s ; " % (chan, N, M, k, origin, " probe=1" if probe else "") + " ; ".join(
         " ".join(n if not a else n + ":" + ":".join(str(x) for x in a) for n, a in p) for p in progs) + " ; S " + " ".join(map(str, sched))
     ext = any(n in XOPS for p in progs for n, a in p)
-    if chan not in RUNNERS or probe or any(n == "drivem" for p in progs for n, a in p):
+    switching = any(n == "drivem" for p in progs for n, a in p)
+    if switching and chan in WRUNNERS and not ext and not probe:
+        coq = "%s %d %d %d %d [%s] [%s]%%nat [%s]%%nat" % (WRUNNERS[chan], N, M, k, origin,
+                "; ".join("[" + "; ".join(coq_wop((("send", a) if n == "senda" else (n, a))) for n, a in p) + "]" for p in progs),
+                "; ".join(waker_plan(p) for p in progs), "; ".join(map(str, sched)))
+    elif chan in ZRUNNERS and not probe and not switching and origin == 0 and all(n in ZOPS for p in progs for n, a in p):
+        # the zero-copy Uni channels: machine of Chan/ChanZ.v over the pool + id-ring component of Alloc/ZcUni.v
+        coq = "%s %d %d %d [%s] [%s]%%nat" % (ZRUNNERS[chan], N, M, k,
+                "; ".join("[" + "; ".join(coq_op(o) for o in p) + "]" for p in progs), "; ".join(map(str, sched)))
+    elif chan not in RUNNERS or probe or switching:
         coq = None                                                # a kind without a lock-step model: judged by the oracles only
     elif ext and chan in XRUNNERS:
         coq = "%s %d %d %d %d [%s] [%s]%%nat" % (XRUNNERS[chan], N, M, k, origin,
@@ -40,7 +71,9 @@ def mk_case(chan, N, M, k, origin, progs, sched, meta=None, probe=False):
                 "; ".join("[" + "; ".join(coq_op((("send", a) if n == "senda" else (n, a))) for n, a in p) + "]" for p in progs), "; ".join(map(str, sched)))
     m = dict(chan=chan, N=N, M=M, k=k, origin=origin, progs=progs, sched=sched, probe=probe)
     m.update(meta or {})
-    return Case(line, coq, m)
+    c = Case(line, coq, m)
+    if chan in ZRUNNERS and coq is not None: c.norm = strip_handle_drops
+    return c
 
 def parse_case_line(line):
     secs = [s.strip() for s in line.split(";")]
@@ -203,7 +236,8 @@ def oracle_only_suites(rng, n, profile=None, Ns=(2, 4), entry=True, tail_rounds=
         cases = [gen_case(rng, ch, Ns=Ns, profile=profile, tail_rounds=tail_rounds) for _ in range(n - (n // 2 if entry else 0))]
         if profile != "cancel": cases += [gen_preempt_case(rng, ch, Ns=tuple(set(Ns))) for _ in range(max(10, n // 5))]
         if entry: cases += [gen_entry_case(rng, ch, Ns=tuple(x for x in (2, 4, 8) if x in Ns or x == 4)) for _ in range(n // 2)]
-        out.append(Suite("uni_%s(oracle only)" % ch, HEADER, cases, compare=False))
+        # (zero-copy kinds: cases made of send / send_with / poll / drive / cancel_all / len carry a model term and are compared in lock-step)
+        out.append(Suite("uni_%s" % ch, XHEADER, cases, compare=True))
     return out
 
 # ------------------------------------------------------------------------------------------- oracles
